@@ -84,6 +84,9 @@ pub struct HybridCfg {
     /// hashes the admission filter rejects
     #[serde(default)]
     pub reject: Vec<u64>,
+    /// write-queue threshold in bytes (default: the engine's 16 MiB)
+    #[serde(default)]
+    pub queue_threshold: Option<usize>,
     /// inserts of keys with disk-only advice go through `HybridCache::storage_writer` (default placement,
     /// the writer makes the entry disk-only) instead of `insert_with_properties(Location::OnDisk)`
     #[serde(default)]
@@ -337,6 +340,10 @@ impl HybridRunner {
             .with_flush_switch(self.switch.clone())
             .with_compression(compression)
             .with_admission_filter(StorageFilter::new().with_condition(EnqRecorder(self.enq.clone(), h.reject.clone())));
+        let engine = match h.queue_threshold {
+            Some(n) => engine.with_submit_queue_size_threshold(n),
+            None => engine,
+        };
         let policy = if h.policy == "woi" { HybridCachePolicy::WriteOnInsertion } else { HybridCachePolicy::WriteOnEviction };
         let builder = HybridCacheBuilder::new()
             .with_policy(policy)
@@ -450,6 +457,9 @@ impl HybridRunner {
             Some(base) => (base, true),
             None => (a, false),
         };
+        // "ins_big": an entry of twice the block size (over the per-entry limit of the disk tier)
+        let big_pad = if a == "ins_big" { Some(2 * self.hcfg.block_pages * PAGE) } else { None };
+        let a = if a == "ins_big" { "ins" } else { a };
         let k = op.get("k").and_then(|x| x.as_u64()).unwrap_or(0);
         if a == "init" {
             self.open()?;
@@ -473,8 +483,8 @@ impl HybridRunner {
                 self.nv += 1;
                 let v = self.nv;
                 self.truth.insert(k, v);
-                let val = match op.get("pad").and_then(|x| x.as_u64()) {
-                    Some(p) => self.val_pad(k, v, p as usize),
+                let val = match op.get("pad").and_then(|x| x.as_u64()).map(|p| p as usize).or(big_pad) {
+                    Some(p) => self.val_pad(k, v, p),
                     None => self.val(k, v),
                 };
                 let _g = self.rt.enter();
